@@ -672,7 +672,7 @@ func (s *DDSketchWithExactSummaryStatistics) Add(value float64) error {
 
 func (s *DDSketchWithExactSummaryStatistics) AddWithCount(value, count float64) error {
 	if count == 0 {
-		return nil
+		return s.DDSketch.AddWithCount(value, count)
 	}
 	err := s.DDSketch.AddWithCount(value, count)
 	if err != nil {
